@@ -172,6 +172,19 @@ func dnForm(r *hx.Rand, u string) string {
 	}
 }
 
+func genOddBind(r *hx.Rand, creds []string) LReq {
+	u, p := genAttempt(r, creds)
+	ver := int64(r.PickInt([]int{3, 3, 2, 1, 0}))
+	switch r.Intn(3) {
+	case 0:
+		return LReq{Kind: "bind-short", Ver: ver, DN: dnForm(r, u), Tag: r.Range(0, 2)}
+	case 1:
+		return LReq{Kind: "bind-badname", Ver: ver, Pw: p}
+	default:
+		return LReq{Kind: "bind-other", Ver: ver, DN: dnForm(r, u), Pw: p}
+	}
+}
+
 func genProbe(r *hx.Rand) LReq {
 	if r.Chance(1, 8) {
 		return LReq{Kind: "op", Tag: r.PickInt([]int{16, 26, 30})}
@@ -191,11 +204,14 @@ func genLDAP(r *hx.Rand) Input {
 		switch r.Intn(12) {
 		case 0:
 			ver = 2
-		case 1:
+		case 1, 2:
 			ver = int64(r.PickInt([]int{1, 0}))
 		}
 		in.Reqs = append(in.Reqs, LReq{Kind: "bind", Ver: ver, DN: dnForm(r, u), Pw: p})
 		for k := r.Range(0, 2); k > 0; k-- {
+			if r.Chance(1, 10) {
+				in.Reqs = append(in.Reqs, genOddBind(r, in.Creds))
+			}
 			in.Reqs = append(in.Reqs, genProbe(r))
 		}
 	}
@@ -219,6 +235,8 @@ func ldapCorpus(tier string) []Input {
 		}
 		return o
 	}
+	// regression witness of the repaired defect (eb36456): a version-1 bind must leave its name and password in the event
+	out = append(out, Input{Svc: "ldap", HaveCreds: true, Creds: []string{"root:root"}, Reqs: []LReq{{Kind: "bind", Ver: 1, DN: "root", Pw: "root"}}})
 	// default configuration (root:root): all gated operations before, after a wrong, after the right bind
 	out = append(out, Input{Svc: "ldap", Reqs: seq(probes(), []LReq{bind("cn=root,dc=example,dc=com", "admin")}, probes(), []LReq{bind("cn=root,dc=example,dc=com", "root")}, probes())})
 	// anonymous bind succeeds and is not a login; a later failed bind keeps an earlier login
@@ -227,6 +245,14 @@ func ldapCorpus(tier string) []Input {
 	out = append(out, Input{Svc: "ldap", HaveCreds: true, Creds: []string{"*", "root"}, Reqs: seq([]LReq{bind("root", "root"), bind("*", ""), bind("root", "")}, probes())})
 	// empty user name with a password: accepted when listed, but the session stays anonymous
 	out = append(out, Input{Svc: "ldap", HaveCreds: true, Creds: []string{":123456", "root:"}, Reqs: seq([]LReq{bind("", "123456")}, probes(), []LReq{bind("root", "")}, probes(), []LReq{bind(",dc=com", "123456")}, probes())})
+	// the returns of bind.go that precede the version check, for old and current versions,
+	// before and after a login
+	out = append(out, Input{Svc: "ldap", HaveCreds: true, Creds: []string{"root:root"}, Reqs: []LReq{
+		{Kind: "bind-short", Ver: 1, Tag: 1}, {Kind: "bind-short", Ver: 3, DN: "cn=root", Tag: 2}, {Kind: "bind-short", Tag: 0},
+		{Kind: "bind-badname", Ver: 1, Pw: "root"}, {Kind: "bind-badname", Ver: 3, Pw: "root"},
+		{Kind: "bind-other", Ver: 1, DN: "cn=root,dc=example,dc=com", Pw: "root"}, {Kind: "bind-other", Ver: 3, DN: "sn=admin", Pw: "x"},
+		{Kind: "op", Tag: 6}, bind("root", "root"), {Kind: "op", Tag: 6},
+		{Kind: "bind-short", Ver: 3, Tag: 1}, {Kind: "bind-badname", Ver: 0, Pw: ""}, {Kind: "bind-other", Ver: 3, DN: "root", Pw: "root"}, {Kind: "op", Tag: 8}}})
 	// old protocol versions, abandon, unknown operations
 	out = append(out, Input{Svc: "ldap", HaveCreds: true, Creds: []string{"root:root"}, Reqs: []LReq{{Kind: "bind", Ver: 1, DN: "root", Pw: "root"}, {Kind: "op", Tag: 6}, {Kind: "bind", Ver: 0, DN: "root", Pw: "root"}, {Kind: "op", Tag: 16}, {Kind: "bind", Ver: 2, DN: "root", Pw: "root"}, {Kind: "op", Tag: 16}, {Kind: "op", Tag: 26}, {Kind: "op", Tag: 14}}})
 	lists := [][]string{{"root:root"}, {"admin:123456", "guest:", ":admin"}}
@@ -430,9 +456,16 @@ func coqSSH(id int, in Input, ob SObs) string {
 func coqLDAP(id int, in Input, ob LObs) string {
 	var reqs, rps, evs []string
 	for _, r := range in.Reqs {
-		if r.Kind == "bind" {
+		switch r.Kind {
+		case "bind":
 			reqs = append(reqs, fmt.Sprintf("LBind %s %s %s", hx.CoqZ(r.Ver), hx.CoqStr(r.DN), hx.CoqStr(r.Pw)))
-		} else {
+		case "bind-short":
+			reqs = append(reqs, "LBindShort "+hx.CoqZ(r.Ver))
+		case "bind-badname":
+			reqs = append(reqs, "LBindBadName "+hx.CoqZ(r.Ver))
+		case "bind-other":
+			reqs = append(reqs, fmt.Sprintf("LBindOther %s %s", hx.CoqZ(r.Ver), hx.CoqStr(r.DN)))
+		default:
 			reqs = append(reqs, "LOp "+hx.CoqN(uint64(r.Tag)))
 		}
 	}
